@@ -288,9 +288,9 @@ func hierarchicalExtra() []Policy {
 		hierarchicalPolicy([][2]int{{1, 1}, {2, 1}, {4, 3}}, []sharing.ID{1, 2, 3, 4, 5}),
 		hierarchicalPolicy([][2]int{{1, 1}, {2, 2}, {3, 2}}, []sharing.ID{2, 3, 5, 7, 11}),
 		hierarchicalPolicy([][2]int{{2, 2}, {3, 1}, {5, 3}}, []sharing.ID{1, 2, 3, 4, 5, 6}),
-		hierarchicalPolicy([][2]int{{1, 2}, {3, 2}}, []sharing.ID{1, 3, 2, 4}),       // interleaved
+		hierarchicalPolicy([][2]int{{1, 2}, {3, 2}}, []sharing.ID{1, 3, 2, 4}),               // interleaved
 		hierarchicalPolicy([][2]int{{1, 2}, {2, 2}, {4, 2}}, []sharing.ID{1, 2, 3, 5, 4, 6}), // interleaved
-		hierarchicalPolicy([][2]int{{1, 1}, {2, 2}}, []sharing.ID{9, 2, 3}),          // reversed
+		hierarchicalPolicy([][2]int{{1, 1}, {2, 2}}, []sharing.ID{9, 2, 3}),                  // reversed
 	}
 }
 
